@@ -1,5 +1,5 @@
 (* Readable corollaries of the master refinement, one per property conjunct. *)
-From Chum Require Export SemLaws.
+From Chum Require Export SemLaws Modes.
 
 Section Corollaries.
 Variable K : ekind.
@@ -126,5 +126,17 @@ Definition into_result {A} (o : option A) (errs : list err) : option A :=
 
 Lemma errors_never_ok {A} (o : option A) errs : errs <> [] -> into_result o errs = None.
 Proof. destruct errs; [contradiction|reflexivity]. Qed.
+
+(* C04: check() and parse() report the same verdict and the same error list, for every quirk vector *)
+Lemma run_top_check_is_emit Q n g :
+  run_top Q K toks spn n Check g =
+    match run_top Q K toks spn n Emit g with
+    | TRes (Some _) errs => TRes (Some None) errs
+    | x => x
+    end.
+Proof.
+  unfold run_top. rewrite (mode_independent Q K toks spn n).
+  destruct (Machine.go Q K toks spn n Emit (ThenIgnore g End) VUnit init_st) as [[] s']; reflexivity.
+Qed.
 
 End Corollaries.
